@@ -31,15 +31,24 @@ def inputs(tier):
         out.append(dict(src='corpus', d=d))
     for d in corpus.cutouts(tier, radius=9.0)[:: (1 if tier == 'thorough' else 2)]:
         out.append(dict(src='corpus', d=d))
+    # multi-conformation inputs in which conformations are completed from each other
+    for lay in ([[' ', 'ASP'], ['B', 'ASPs']], [['A', 'ASP'], ['B', 'ASPs'], ['C', 'ASP']]):
+        for partial in (False, True):
+            out.append(dict(src='c08', d=dict(kind='alt', layout=lay, partial=partial) if partial else dict(kind='alt', layout=lay)))
+    for lay in ([[1, 'ASP'], [2, 'ASPnoCG']], [[1, 'ASPnoCG'], [2, 'ASP']], [[1, 'ASP'], [2, 'ALA']]):
+        out.append(dict(src='c08', d=dict(kind='model', layout=lay)))
     for c in c01.stream_cases('quick'):
         toks = c['tokens']
-        if len(toks) == 3 and c['dev'] <= 1 and any(t[1] == 'twin' or t[2] == 'blank' for t in toks[1:]) and \
+        if len(toks) == 3 and c['dev'] <= 1 and (any(t[1] == 'twin' or t[2] == 'blank' for t in toks[1:]) or c['start'][0] < 0) and \
                 all(t[0] in ('GLU', 'LYS') for t in toks):
             out.append(dict(src='stream', d=c))
     return out
 
 
 def build(inp, seed):
+    if inp['src'] == 'c08':
+        from . import c08
+        return c08.build(dict(inp['d'], layout=[tuple(x) for x in inp['d']['layout']]), seed)
     if inp['src'] == 'stream':
         items = c01.build_stream(inp['d'], seed)
         return None if items is None else gen.S(items)
@@ -78,12 +87,11 @@ def run_case(case, ctx, acc):
     m0 = pk.run(text)
     r0 = pk.record(m0)
     params = m0.version.parameters
-    conf = r0['conformations'][0]
-    groups0 = {g['key']: g for g in r0['confs'][conf]['groups']}
     reportable = []
-    for g in r0['confs'][conf]['groups']:
-        if g['use'] and reskey_of(g) not in reportable:
-            reportable.append(reskey_of(g))
+    for conf in r0['conformations']:
+        for g in r0['confs'][conf]['groups']:
+            if g['use'] and reskey_of(g) not in reportable:
+                reportable.append(reskey_of(g))
     if not reportable:
         acc.skipped += 1
         return
